@@ -47,11 +47,12 @@ def describe(case):
 NTNAME = {0: 'X_3', 1: 'X_1', 2: 'X_2', 3: 'X_4'}
 
 
-def build_rule(sh, ntmask):
+def build_rule(sh, ntmask, idmode='explicit'):
     import fggs
     labs, edges, ext = sh
     r = fggs.Graph()
-    ns = [r.new_node(l, id='v%d' % i) for i, l in enumerate(labs)]
+    # idmode 'mixed': every second node keeps its implicit id (explicit and implicit ids may share one graph)
+    ns = [r.new_node(l, id=('v%d' % i if idmode == 'explicit' or i % 2 == 0 else None)) for i, l in enumerate(labs)]
     for j, e in enumerate(edges):
         nt = ntmask >> j & 1
         name = NTNAME[len(e)] if nt else 'f%d' % len(e)
@@ -187,8 +188,10 @@ def run_case(case):
             okall = True
             split = False
             # (a) factorize_rule, without and with labels
-            for with_labels in (False, True):
-                ctx = 'factorize_rule'
+            rule_explicit = rule
+            for with_labels, idmode in ((False, 'explicit'), (True, 'explicit'), (False, 'mixed')):
+                ctx = 'factorize_rule' + ('/mixed-ids' if idmode == 'mixed' else '')
+                rule = rule_explicit if idmode == 'explicit' else build_rule(sh, ntmask, 'mixed')
                 orig_labels = {rule.lhs} | set(rule.rhs.edge_labels())
                 extra = fggs.EdgeLabel('X_5', [], is_nonterminal=True)
                 labels = set(orig_labels) | {extra} if with_labels else None
@@ -214,6 +217,7 @@ def run_case(case):
                         okall = False
                         break
                 split = split or len(new) > 1
+            rule = rule_explicit
             if not okall:
                 continue
             # (b) factorize_hrg on a two-rule grammar (the rule twice under one lhs, plus a start rule), and on its copy
